@@ -11,10 +11,13 @@ are false for the code as written (theorems desc_idempotent_refuted, desc_idempo
 desc_common_indent_refuted).  Inputs in exactly those classes are reported as KNOWN-FINDING, not as
 violations; a failure outside the classes is a violation.
 """
+import itertools
 import json
+import random
 import re
 
 from .. import common as C
+from .. import proj as P
 
 # Known counterexample classes of the unchanged code (each proved as a `*_refuted` theorem).
 # `when` documents the predicate implemented by classify_idem / classify_indent below.
@@ -135,6 +138,8 @@ class Acc:
         self.n_fixed = 0
         self.n_guarded_idem = 0
         self.n_bare_paren = 0
+        self.n_e2e_annot = 0
+        self.n_e2e_desc = 0
 
 
 def run_both(lines):
@@ -288,6 +293,131 @@ def check_annotations(res, acc, inputs, pad_maxlen=6):
     return out
 
 
+# --------------------------------------------------------------------------------------
+# end to end: the same text in either spelling, through the scanner and the catalog
+
+E2E_ANNOT_ALPHABET = b"a */\t"
+E2E_DESC_LINES = [b"a", b" a", b"\ta", b"  a b", b"(a)", b"a (b) c", b"#a", b"a # b", b"a GET", b"x Title y", b"", b" ", b"a  ", b"// a",
+                  b"a /* b */", b"- a", b"200a", b"a)", b"a("]
+
+
+def _json_of(line):
+    st, d = P.parse(line)
+    if st != "ok":
+        return st, C.unhx(d.get("msg", "-"))
+    try:
+        return "ok", json.loads(C.unhx(d["json"]).decode("utf-8", "replace"))
+    except Exception as e:  # noqa
+        return "badjson", str(e).encode()
+
+
+def fields(t):
+    return b" ".join(t.split())
+
+
+def check_e2e_annotations(res, acc, tier, rng):
+    """GET /x // t   against   GET /x /* t*/  (and  /* t */): same annotation = the collapsed text, nothing swallowed"""
+    n = 5 if tier == "quick" else 7
+    texts = [t for t in C.all_strings(E2E_ANNOT_ALPHABET, n, minlen=1)]
+    if tier != "quick":
+        texts = [t for t in texts if len(t) <= 6] + rng.sample([t for t in texts if len(t) == 7], 20000)
+    texts += [b"required **", b"a b  c\t d", b"x ***", b"** doc", b"a * b", b"a/b//c", b"* *", b"a***"]
+    cases = []
+    for t in texts:
+        line = b"JSIGHT 0.3\nGET /x // " + t + b"\n  200 any\nGET /last // last\n"
+        cases.append((t, "line", line))
+        if b"*/" not in t and b"*/" not in (b" " + t + b"*/")[:-2]:
+            cases.append((t, "block", b"JSIGHT 0.3\nGET /x /* " + t + b"*/\n  200 any\nGET /last /* last */\n"))
+            cases.append((t, "block-spaced", b"JSIGHT 0.3\nGET /x /*\t" + t + b" */\n  200 any\nGET /last /* last */\n"))
+    outs = C.run_sharded("harness", "fn", [P.run_line("out=json", [("a.jst", d)]) for (_, _, d) in cases])
+    res.count(len(cases))
+    per = {}
+    for (t, sp, d), o in zip(cases, outs):
+        st, j = _json_of(o)
+        want = fields(t).decode()
+        got = None
+        if st == "ok":
+            ix = j.get("interactions", {})
+            x = ix.get("http GET /x")
+            last = ix.get("http GET /last")
+            if x is None or last is None or last.get("annotation") != "last" or [r.get("code") for r in x.get("responses", [])] != ["200"]:
+                acc.spec_bad.append(("annotation_spelling_e2e", "annotation", d, "spelling %s of annotation text %r: directives after it are lost or changed (interactions %r)" % (sp, t, sorted(ix))))
+                continue
+            got = x.get("annotation", "")
+        per.setdefault(t, {})[sp] = (st, got)
+        if st == "ok" and got != want:
+            acc.spec_bad.append(("annotation_spelling_e2e", "annotation", d, "spelling %s of annotation text %r gives %r, the collapsed text is %r" % (sp, t, got, want)))
+        elif st != "ok" and want != "":
+            acc.spec_bad.append(("annotation_spelling_e2e", "annotation", d, "spelling %s of annotation text %r is rejected: %s %r" % (sp, t, st, j[:80])))
+        if st == "ok" and got != t.decode():
+            res.nontrivial((b"e2e-annotation", sp.encode(), t))
+    acc.n_e2e_annot = len(cases)
+
+
+HOSTS = [
+    ("INFO", b"JSIGHT 0.3\nINFO\n  Title \"T\"\n  Description\n%s\nGET /last\n  200 any\n", lambda j: j.get("info", {}).get("description")),
+    ("GET", b"JSIGHT 0.3\nGET /x\n  Description\n%s\n  200 any\nGET /last\n  200 any\n", lambda j: j.get("interactions", {}).get("http GET /x", {}).get("description")),
+    ("Method", b"JSIGHT 0.3\nURL /r\n  Protocol json-rpc-2.0\n  Method foo\n    Description\n%s\n    Params\n      {}\nGET /last\n  200 any\n",
+     lambda j: j.get("interactions", {}).get("json-rpc-2.0 foo /r", {}).get("description")),
+    ("TAG", b"JSIGHT 0.3\nTAG @t\n  Description\n%s\nGET /last\n  200 any\n", lambda j: j.get("tags", {}).get("@t", {}).get("description")),
+]
+
+
+def check_e2e_descriptions(res, acc, tier, rng):
+    """Description text bare and parenthesised in each host: the catalog description is description(text) in both"""
+    texts = set()
+    for k in (1, 2, 3):
+        combos = list(itertools.product(E2E_DESC_LINES, repeat=k))
+        if k == 3:
+            combos = rng.sample(combos, 600 if tier == "quick" else 4000)
+        for c in combos:
+            for nl in ((b"\n",) if tier == "quick" and k == 3 else (b"\n", b"\r\n")):
+                texts.add(nl.join(c))
+    texts = sorted(texts)
+    fn = C.run_sharded("harness", "fn", ["description " + C.hx(t) for t in texts] + ["description " + C.hx(b"(\n" + t + b"\n)") for t in texts])
+    res.count(2 * len(texts))
+    want = {(t, "bare"): parse_desc(o) for t, o in zip(texts, fn)}
+    want.update({(t, "paren"): parse_desc(o) for t, o in zip(texts, fn[len(texts):])})
+    cases = []
+    for t in texts:
+        first = t.lstrip(b" \t\r\n")
+        bare_ok = not first.startswith(b"(") and not any(l.lstrip(b" \t").startswith(b")") for l in re.split(b"[\r\n]+", t)) \
+            and not any(re.match(rb"^[ \t]*(%s|[1-5][0-9][0-9])" % b"|".join(KW_BYTES), l) for l in re.split(b"[\r\n]+", t))
+        paren_ok = not any(l.lstrip(b" \t").startswith(b")") for l in re.split(b"[\r\n]+", t))
+        for hi, (hn, tpl, get) in enumerate(HOSTS):
+            if tier == "quick" and hi != (len(t) + t.count(b"a")) % 4 and len(t) > 6:
+                continue
+            if bare_ok:
+                cases.append((t, hn, "bare", tpl % t, get))
+            if paren_ok:
+                cases.append((t, hn, "paren", tpl % (b"(\n" + t + b"\n)"), get))
+    outs = C.run_sharded("harness", "fn", [P.run_line("out=json", [("a.jst", d)]) for (_, _, _, d, _) in cases])
+    res.count(len(cases))
+    for (t, hn, sp, d, get), o in zip(cases, outs):
+        st, j = _json_of(o)
+        wst, wd = want[(t, sp)]
+        if wst == "ok" and wd != b"":
+            if st != "ok":
+                acc.spec_bad.append(("desc_spelling_e2e", "description", d, "%s description of %s, text %r: rejected (%s %r), the text normalises to %r" % (sp, hn, t, st, j[:100], wd)))
+            elif get(j) != wd.decode("utf-8", "replace") or "http GET /last" not in j.get("interactions", {}):
+                acc.spec_bad.append(("desc_spelling_e2e", "description", d, "%s description of %s, text %r: catalog has %r, the normalised text is %r" % (sp, hn, t, get(j), wd)))
+            else:
+                res.nontrivial((b"e2e-description", hn.encode(), sp.encode(), t))
+        elif wst == "ok":
+            # blank text: rejected, or no description at all - never a non-empty one
+            if st == "ok" and get(j):
+                acc.spec_bad.append(("desc_spelling_e2e", "description", d, "%s description of %s, blank text %r: catalog has %r" % (sp, hn, t, get(j))))
+        else:
+            if st == "ok":
+                acc.spec_bad.append(("desc_spelling_e2e", "description", d, "%s description of %s, text %r: accepted with %r although the normaliser rejects the text" % (sp, hn, t, get(j))))
+    acc.n_e2e_desc = len(cases)
+
+
+KW_BYTES = [b"JSIGHT", b"INFO", b"Title", b"Version", b"Description", b"SERVER", b"BaseUrl", b"URL", b"GET", b"POST", b"PUT", b"PATCH",
+            b"DELETE", b"Body", b"Request", b"Path", b"Headers", b"Query", b"TYPE", b"ENUM", b"MACRO", b"PASTE", b"INCLUDE", b"Protocol",
+            b"Method", b"Params", b"Result", b"TAG", b"Tags"]
+
+
 # longer inputs: the witnesses of the known classes (class 2 needs 9 bytes) and hand-picked layouts
 LONG_SAMPLES = [
     b"  a\n \n  a", b"   \n \n  a", b"    a\n  \n    b", b"   \n   a", b"(\n(\na\n)\n)", b" (  \r\n  a\r\n    b\r\n ) \n",
@@ -321,7 +451,10 @@ def run(res, tier, seed, replay):
     if replay:
         rp = json.load(open(replay))
         s = C.unhx(rp.get("input", "-"))
-        if rp.get("cmd", "description") == "annotation":
+        if rp.get("theorem", "").endswith("_e2e"):
+            check_e2e_annotations(res, acc, tier, random.Random(seed))
+            check_e2e_descriptions(res, acc, tier, random.Random(seed))
+        elif rp.get("cmd", "description") == "annotation":
             check_annotations(res, acc, [s])
         else:
             check_descriptions(res, acc, [s])
@@ -388,7 +521,11 @@ def run(res, tier, seed, replay):
         if C.unhx(i) != s:
             res.nontrivial((b"trimspace", s))
 
+    rng = random.Random(seed)
+    check_e2e_annotations(res, acc, tier, rng)
+    check_e2e_descriptions(res, acc, tier, rng)
     res.notes["input_distribution"] = {
+        "end_to_end_annotation_documents": acc.n_e2e_annot, "end_to_end_description_documents": acc.n_e2e_desc,
         "description_inputs": sum(len(c) for c in chunks), "description_max_len": dlen,
         "annotation_inputs": len(ains), "annotation_max_len": alen, "trimspace_inputs": len(uins),
         "impl_verdicts": acc.dist, "normal_forms_checked_as_fixed_points": acc.n_fixed,
